@@ -235,6 +235,8 @@ def one_case(args):
     fmt, version = rng.choice([0, 2]), rng.choice([6, 7])
     split = rng.choice([0.0, 0.0, 0.3])
     nodata = rng.choice([0.0, 0.0, 0.5])      # frames preceded by no-data TDHs
+    # --mute-errors only silences the display (and drops the per-lane context lines): verdict, location and lane list must not change
+    muted = case % 3 == 2
     runs = []
     for variant in range(2):   # same skeleton, different hit content
         vr = rng_for(seed, case, 100 + variant)
@@ -248,10 +250,10 @@ def one_case(args):
         data = s.serialize()
         path = os.path.join(wd, "c%d_%d.raw" % (case, variant))
         write_file(path, data)
-        r = obs.run(exe, [path, "check", "all", "its-stave"], workdir=wd, stats="json", tag="c%d" % case)
+        r = obs.run(exe, [path, "check", "all", "its-stave"] + (["-m"] if muted else []), workdir=wd, stats="json", tag="c%d" % case)
         os.unlink(path)
         runs.append((s, positions, data, r, allflags))
-    desc = "layer %d (%s), %d frames %s, format %d" % (layer, its.barrel(layer), nframes, [t["kind"] for t in truth], fmt)
+    desc = "layer %d (%s), %d frames %s, format %d%s" % (layer, its.barrel(layer), nframes, [t["kind"] for t in truth], fmt, ", -m" if muted else "")
     out["sample"] = desc
 
     def bad(what, sig, variant=0):
@@ -299,7 +301,7 @@ def one_case(args):
                     if lanes != t["lanes"]:
                         return bad("frame %d at 0x%X: lanes in error listed %s, reference %s" % (fi, off, sorted(lanes), sorted(t["lanes"])), "frame:lanes:%s" % t["kind"], variant)
                     inner = set(c for c in ("9003", "9004", "9005") if "[E%s]" % c in fm[code][0].text)
-                    if inner != t["inner"]:
+                    if inner != t["inner"] and not muted:
                         return bad("frame %d at 0x%X: inner codes %s, reference %s" % (fi, off, sorted(inner), sorted(t["inner"])), "frame:inner:%s" % t["kind"], variant)
             v.append(tuple(sorted(got)))
         # no frame-level message anywhere else
